@@ -43,13 +43,15 @@ CLAIMED = {
  "C17": dict(tech="TLA+ model of UpdateCheckpoint per target request with stop/restart (CkptMaint.tla) model-checked with TLC + TLC trace validation (TraceCkpt.tla) of every request prefix of the real maintenance operations",
              text="TLC enumerates all initial layouts over 3-4 databases and every stop point of the rename / failover / combined procedure followed by the next start. On the real code every prefix of the requests issued by UpdateCheckpoint (three variants) and DelStaleCheckpoint is cut by the fake target on seeded initial layouts (several databases with checkpoints, equal offsets, stale and fresh entries, databases without checkpoint), then the next start runs; TLC judges that the resume position is not lost, not smaller and in the same database.",
              note="Bidirectional namespace/mode migration not exercised; Go map order sampled by repetition.", ref="4 C17"),
+ "C06": dict(tech="TLA+ one-step model of syncMeta against the PSYNC admission rule (Resync.tla) checked exhaustively with TLC + TLC trace validation (TraceResync.tla) of the real syncMeta against a fake source implementing that rule",
+             text="TLC enumerates every combination of source state (same id, failover with previous id and switch offset, new id, backlog window), stored target position and cache shape within the bound and checks that the decision yields a gap-free continuation from the stored position on the same history, a snapshot, or nothing. The real syncMeta is run against a fake PSYNC master, a fake output position and a real disk/memory cache populated by real writers in thousands of seeded combinations; writer and reader are wired as the run loop does and TLC judges what was delivered (continuation start, history prefix rule, grant, byte identity, snapshot of the current history, no gap).",
+             note="Run loop, retries and output replay not included; histories A / B (shared prefix) / C.", ref="4 C06"),
  "C09": dict(tech="TLC on Replay.tla (TxnMode) + TLC trace validation of real transactional runs with crash enumeration",
              text="For every source MULTI/EXEC group the target must apply all of its data commands in one EXEC block that also carries a position >= the group's EXEC; no stored or returned resume position may lie inside a group, at any crash point.",
              note="Standalone target with real MULTI/EXEC semantics modelled in TLA+.", ref="4 C09"),
 }
 
 PENDING = {
- "C06": "check not built yet (Resync.tla, DESIGN 4 C06)",
  "C13": "check not built yet (Bisync.tla, DESIGN 4 C13)",
  "C14": "check not built yet (BisyncFrontier.tla, DESIGN 4 C14)",
  "C16": "check not built yet (Replica.tla, DESIGN 4 C16)",
